@@ -46,7 +46,7 @@ CHECKS = {
    note="Instruction cycles come from R1 in the non-jit regimes and from last_block_cycle_length in the jit regime.", ref="5/C09"),
  "C10": dict(cat="exploration", engine="E1",
    technique="exhaustive enumeration of (write address, probe address) pairs on the real bus helpers vs a reference memory map",
-   text="For every base set-up, every one of the 65536 write targets x values is applied to the real MemoryAreas and to R2 and all 65536 addresses are read back and compared under the per-address mask; all ordered pairs of writes over the boundary set; fetch view vs data view. Set-ups include ROM sizes that are not a power of two and the display running with the LCD controller standing in mode 2, 3 and 0 of a visible line.",
+   text="For every base set-up, every one of the 65536 write targets x values is applied to the real MemoryAreas and to R2 and all 65536 addresses are read back and compared under the per-address mask; all ordered pairs of writes over the boundary set; fetch view vs data view. Set-ups include ROM sizes that are not a power of two and the display running with the LCD controller standing in mode 2, 3 and 0 of a visible line. For 2 KiB cartridge RAM (which mirrors inside its window) every address of the window is written and read back at the same address.",
    note="I/O read-back is judged only for the 17 registers and bits the property lists.", ref="5/C10"),
  "C11": dict(cat="fault_enumeration", engine="E1+E4",
    technique="exhaustive enumeration of header configurations x controller register states x addresses x access kinds in crash-isolated workers",
